@@ -51,6 +51,8 @@ where
 
     // Create the directory (and parents if needed)
     std::fs::create_dir_all(path)?;
+    #[cfg(feature = "verif-hooks")]
+    crate::verif::tick(crate::verif::Point::Open("precreate:directory_created"));
 
     // Apply platform-specific permissions
     #[cfg(unix)]
@@ -139,6 +141,8 @@ where
     // This uses O_CREAT | O_EXCL on Unix, which is atomic.
     match OpenOptions::new().write(true).create_new(true).open(path) {
         Ok(_file) => {
+            #[cfg(feature = "verif-hooks")]
+            crate::verif::tick(crate::verif::Point::Open("precreate:file_created"));
             // File was created by us - set secure permissions
             set_secure_file_permissions(path)?;
             Ok(FileCreationOutcome::Created)
